@@ -87,7 +87,7 @@ Section Counting.
   Definition count_run (f : ccall -> cresult -> bool) (cs : list ccall) : nat :=
     snd (fold_left (fun st c => let '(hs, n) := st in
                                 let '(hs', r) := cstep tbl uni_numeric uni_alphabetic hs c in
-                                (hs', if f c r then S n else n)) cs ([], 0)).
+                                (hs', if f c r then S n else n)) cs ([], 0%nat)).
   Definition allocs (cs : list ccall) : nat := count_run (fun _ r => is_alloc_ok r) cs.
   Definition frees (cs : list ccall) : nat :=
     count_run (fun c r => match c, r with CFree _, RCode 0%Z => true | _, _ => false end) cs.
